@@ -377,6 +377,31 @@ theorem tSeqFold_nodesN (toks : List TTok) (onElem : VK → R Val) (valF : Node 
       | error x => rfl
       | ok x => cases seqVals valF r <;> rfl
 
+/-- tuple loop over the tokens of a value list without header values: as many elements as the tuple has
+types are read, whatever follows them is not looked at -/
+theorem tTupFold_nodesN (toks : List TTok) (onElem : Ty → VK → R Val) (valF : Ty → Node → R Val) (e : Nat) :
+    ∀ (ts : List Ty) (xs : List Node) (s : Nat), SitsAt toks s (tapeNodes s xs) → s + nodesTsize xs = e →
+    (∀ x, x ∈ xs → x.isHdr = false) →
+    (∀ t x, (t, x) ∈ List.zip ts xs → ∀ i, SitsAt toks i (tapeNode i x) → onElem t (.value i) = valF t x) →
+    tTupFold toks onElem ts s e = tupVals valF ts xs
+  | [], xs, s, _, _, _, _ => by simp [tTupFold, tupVals]
+  | t :: r, [], s, _, hs, _, _ => by
+      simp only [nodesTsize, Nat.add_zero] at hs
+      simp [tTupFold, hs, tupVals]
+  | t :: r, x :: xs, s, hsit, hs, hh, H => by
+      have hnh := hh x (List.mem_cons_self ..)
+      rw [tapeNodes_cons s x xs hnh] at hsit
+      obtain ⟨hv, hr⟩ := sitsAt_append.mp hsit
+      rw [tapeNode_len] at hr
+      have hse : s < e := by have := tsize_pos x; simp only [nodesTsize] at hs; omega
+      have ih := tTupFold_nodesN toks onElem valF e r xs (s + tsize x) hr
+        (by simp only [nodesTsize] at hs; omega)
+        (fun v' hm => hh v' (List.mem_cons_of_mem _ hm)) (fun t' x' hm => H t' x' (by simp [List.zip_cons_cons, hm]))
+      simp only [tTupFold, hse, ↓reduceIte, nextIdxValues_node hv hnh, H t x (by simp [List.zip_cons_cons]) s hv, tupVals, ih]
+      cases valF t x with
+      | error e' => rfl
+      | ok v => cases tupVals valF r xs <;> rfl
+
 /-! ### the value deserializer on the tokens of one value -/
 
 /-- the `ValueKind` a value is read with: `OperatorValue` in field position, `Value` elsewhere -/
@@ -542,6 +567,7 @@ theorem tde_hdr_scalar (enc : Enc) (toks : List TTok) (i : Nat) (n : Bytes) (bod
   | map t => simp [Ty.isPlainScalar] at hp
   | prop t => simp [Ty.isPlainScalar] at hp
   | st fs => simp [Ty.isPlainScalar] at hp
+  | tup ts => simp [Ty.isPlainScalar] at hp
 
 /-! ### `any` on scalars and arrays; benign mismatches -/
 
@@ -663,6 +689,19 @@ theorem tde_node (enc : Enc) (toks : List TTok) : ∀ (f : Nat) (ty : Ty) (b : B
         (toks.length + 1) h1 (by omega) (by simp only [tsize] at hlen; omega) (fun v hm => (expand_mem vs hwn v hm).2)
         (fun v hm i' hs' => by
           have := ih t false .eq v i' (hall v hm) (expand_mem vs hwn v hm).1 hs' (by simp [Ty.height] at hh; omega) (fun _ => rfl)
+          simpa [vkOf] using this)
+      rw [tde, valueOfN]
+      simp only [tShape_seq_arr enc h0, this]
+    | @tup _ ts vs _ hall =>
+      obtain ⟨h0, h1⟩ := sits_arr hsit
+      have hwn : wfNodes vs = true := by simpa [Node.wf] using hwf
+      have hsz := nodesTsize_expand vs hwn
+      rw [← tapeNodes_expand vs (i + 1) hwn] at h1
+      have := tTupFold_nodesN toks (tde enc toks f) (fun t x => valueOfN enc f t .eq x) (i + 1 + nodesTsize vs) ts (expandNodes vs) (i + 1)
+        h1 (by omega) (fun v hm => (expand_mem vs hwn v hm).2)
+        (fun t x hm i' hs' => by
+          have := ih t false .eq x i' (hall t x hm) (expand_mem vs hwn x (List.of_mem_zip hm).2).1 hs'
+            (by have := mem_heightTs ts t (List.of_mem_zip hm).1; simp [Ty.height] at hh; omega) (fun _ => rfl)
           simpa [vkOf] using this)
       rw [tde, valueOfN]
       simp only [tShape_seq_arr enc h0, this]
@@ -796,6 +835,7 @@ theorem fitsT_fits (enc : Enc) : ∀ {b : Bool} {ty : Ty} {v : Node}, FitsT enc 
   | _, _, _, .leafOnArr h => .leafOnArr h
   | _, _, _, .mapOnLeaf => .mapOnLeaf
   | _, _, _, .stOnLeaf => .stOnLeaf
+  | _, _, _, .tup hl h => .tup hl (fun t x hm => fitsT_fits enc (h t x hm))
 
 /-- both parse paths yield the same result -/
 theorem deTape_eq_deStream (enc : Enc) (ty : Ty) (d : Doc) (hroot : Ty.isRoot ty = true)
